@@ -297,6 +297,12 @@ where
 
     let mut tree = NutsTree::new(init.clone());
 
+    if math.dim() == 0 {
+        let info = tree.info(false, None);
+        collector.register_draw(math, init, &info);
+        return Ok((init.clone(), info));
+    }
+
     let (mindepth, maxdepth) = if let Some(target_time) = options.target_integration_time {
         let step_size = hamiltonian.step_size();
         let max_steps = (target_time / step_size).ceil() as u64;
@@ -321,12 +327,6 @@ where
     } else {
         (options.mindepth, options.maxdepth)
     };
-
-    if math.dim() == 0 {
-        let info = tree.info(false, None);
-        collector.register_draw(math, init, &info);
-        return Ok((init.clone(), info));
-    }
 
     let options_no_check = NutsOptions {
         check_turning: false,
